@@ -117,9 +117,14 @@ Section Runner.
   | Cancel                                     (* task.cancel() / an interrupt raised inside the wait *)
   | SubmitCancel (j : nat)                     (* the goal is unmet and an interrupt is raised inside
                                                   _get_futures after j submissions of the batch *)
-  | Shutdown (got : list (nat * outcome)).     (* wait(remaining) returned; for BlockingRunner [got] are
+  | Shutdown (got : list (nat * outcome))      (* wait(remaining) returned; for BlockingRunner [got] are
                                                   the futures that were not cancelled and are done, in
                                                   the order in which they are processed *)
+  | WaitCancel (done : list (nat * outcome)).  (* the wait returned and an interrupt (Ctrl-C) arrives inside
+                                                  _process_futures between two iterations of its loop, e.g.
+                                                  when learner.tell returns: [done] is the part of the
+                                                  returned futures that was processed; the others stay in
+                                                  _pending_tasks although they are done *)
 
   Variable lrn : learner.
   Variable c : cfg.
@@ -248,6 +253,11 @@ Section Runner.
         | (s', Some pid) => stop s' (Failed pid)                   (* RuntimeError propagates into finally *)
         end
     | InWait, Cancel => stop s Cancelled
+    | InWait, WaitCancel done =>
+        match process s done with                                  (* the for loop is left by the interrupt *)
+        | (s', None) => stop s' Cancelled
+        | (s', Some pid) => stop s' (Failed pid)
+        end
     | Stopping w, Shutdown got =>
         match c_kind c with
         | Blocking =>
@@ -285,4 +295,4 @@ End Runner.
 Arguments Err {V}.
 Arguments LAsk {P V}.
 Arguments TRemove {P V}. Arguments TCancel {P V}. Arguments TDone {P V}. Arguments TAsk {P V}. Arguments TSubmit {P V}.
-Arguments Goal {V}. Arguments Cancel {V}. Arguments SubmitCancel {V}.
+Arguments Goal {V}. Arguments Cancel {V}. Arguments SubmitCancel {V}. Arguments WaitCancel {V}.
